@@ -39,6 +39,7 @@ def generate(seed):
     d0 = g.top_doc()
     docs = [d0] + [g.variant(d0) for _ in range(r.randint(1, 3))]
     # roots: container nodes of the documents (concrete, or bare MapValue()/ListValue() parts)
+    ctx_roots = g.context(docs)
     roots = []
     for _ in range(r.randint(1, 4)):
         c = r.random()
@@ -51,8 +52,12 @@ def generate(seed):
         parts = []
         cur = d
         for k in node_path:
-            if r.random() < 0.25:
+            x = r.random()
+            if x < 0.25:
                 parts.append(("map", ()) if isinstance(cur, dict) else ("list", ()))
+            elif x < 0.35:
+                # a root part with conditions of its own (selects some siblings)
+                parts.append(g.general_part(ctx_roots, cur, k))
             else:
                 parts.append(g.concrete_part(k))
             cur = cur[k]
